@@ -12,7 +12,8 @@ REDACT_QUERIES = ['redact("a")', 'a == 1 and redact("b", "c.k")', 'redact("a.jso
                   '(redact("a.b")) and a.b == 1', 'a.redact("b")', 'redact("zz")', 'redact("a.k[0]")', 'limit(3) and redact("c")']
 EXTRA_QUERIES = ['a.undefinedHelper(1) or true', 'limit(10) and a', 'now() > a', 'a <= seconds(5)', 'a.b.startsWith("x")', 'a == r"^x"',
                  'a.* == 1', 'a[*].k == 1', 'a..k == 1', 'a[0] == 1', 'a["k"] == 1', 'a.json().b == 1', 'a.xml().r.b == "1"',
-                 'b.json()..c > 0', 'datetime("10/19/2021, 6:29:02.000 PM") > a', '!(a) and -b < 0', 'a == nil', '', 'true']
+                 'b.json()..c > 0', 'datetime("10/19/2021, 6:29:02.000 PM") > a', '!(a) and -b < 0', 'a == nil', '', 'true',
+                 'a.* == a[*]']          # witness of the recorded finding map-order (on the record whose a is an object)
 
 
 def same(a, b):
@@ -22,6 +23,16 @@ def same(a, b):
         return True
     ca, cb = kfl.canon_json(kfl.unhx(a["r"])), kfl.canon_json(kfl.unhx(b["r"]))
     return ca is not None and ca == cb
+
+
+def nondeterministic(ctx, query, records, times=16):
+    """is the answer of a FRESH evaluation already not a function of (query, record)? (Go map order)"""
+    res = kfl.run_cases(ctx, "eval", [[query, r] for r in records for _ in range(times)])
+    for i in range(len(records)):
+        seen = {(o.get("outcome"), o.get("truth")) for o in res[i * times:(i + 1) * times]}
+        if len(seen) > 1:
+            return True
+    return False
 
 
 def build_race(ctx):
@@ -116,6 +127,9 @@ def run(ctx):
         if not o["concurrent_snap_equal"] and bad is None:
             bad = {"kind": "ast-modified-concurrently"}
         if bad:
+            if bad["kind"] in ("history-dependence", "concurrent-mismatch") and nondeterministic(ctx, qt, l[1:]) and ctx.is_known("map-order"):
+                stats["known:map-order"] = stats.get("known:map-order", 0) + 1
+                continue
             bad.update({"query": qt, "records": l[1:], "how": "vh-kfl reuse"})
             ctx.violation(bad)
     ctx.sample({"query": lines[0][0], "records": lines[0][1:3], "fresh": res[0].get("fresh", [])[:2]})
